@@ -65,7 +65,7 @@ func checkC20(ck *Check) {
 		}
 	}
 	sort.Slice(fns, func(i, j int) bool { return funcID(fns[i]) < funcID(fns[j]) })
-	ck.floor("C20.R1", "repo functions reachable from RunOnce", len(fns), 60)
+	ck.floor("C20.R1", "repo functions reachable from RunOnce", len(fns), 40)
 
 	counts := map[string]int{}
 	for _, fn := range fns {
@@ -536,7 +536,7 @@ func (ck *Check) loopCensus(rule string, fns []*ssa.Function) {
 			}
 		}
 	}
-	ck.floor(rule, "loops reachable from RunOnce", n, 25)
+	ck.floor(rule, "loops reachable from RunOnce", n, 15)
 }
 
 func (ck *Check) isInductionLoop(l *Loop) bool {
@@ -625,7 +625,7 @@ func (ck *Check) percentGuards(rule string) {
 				}
 			}
 		}
-		ck.floor(rule, "divisions in "+fn.Name(), n, 2)
+		ck.floor(rule, "divisions in "+fn.Name(), n, 1)
 	}
 	// zero capacity returns an error or the sentinel
 	fn := a.CalcPercent
